@@ -499,6 +499,7 @@ func RunCall(ctx context.Context, cl *connect.Client[BV, BV], kind Kind, reqs []
 					break
 				}
 				out.Err = err
+				_, _ = s.CloseAndReceive() // never abandon a stream: closing it is the caller's part of the contract
 				return out
 			}
 		}
